@@ -768,7 +768,12 @@ impl MachineState {
                 self.try_from_inner_list(vec![], l, stub_gen, value)
             }
             (HeapCellValueTag::PStrLoc, pstr_loc) => {
-                self.try_from_partial_string(vec![], pstr_loc, stub_gen, value)
+                let mut chars = vec![];
+
+                match self.try_from_partial_string(&mut chars, pstr_loc, &stub_gen, value)? {
+                    Some(l) => self.try_from_inner_list(chars, l, stub_gen, value),
+                    None => Ok(chars),
+                }
             }
             (HeapCellValueTag::AttrVar | HeapCellValueTag::StackVar | HeapCellValueTag::Var) => {
                 let err = self.instantiation_error();
@@ -819,7 +824,13 @@ impl MachineState {
                     l = hcp + 1;
                 }
                 (HeapCellValueTag::PStrLoc, pstr_loc) => {
-                    return self.try_from_partial_string(result, pstr_loc, stub_gen, a1);
+                    match self.try_from_partial_string(&mut result, pstr_loc, &stub_gen, a1)? {
+                        Some(hcp) => {
+                            result.push(self.heap[hcp]);
+                            l = hcp + 1;
+                        }
+                        None => break,
+                    }
                 }
                 (HeapCellValueTag::Str, s) => {
                     let (name, arity) = cell_as_atom_cell!(self.heap[s])
@@ -855,13 +866,16 @@ impl MachineState {
         Ok(result)
     }
 
+    // pushes the characters of the string at pstr_loc to chars. If the string is
+    // continued by ordinary list cells, the location of the first of them is
+    // returned; None is returned if the string ends the list.
     fn try_from_partial_string(
         &mut self,
-        mut chars: Vec<HeapCellValue>,
+        chars: &mut Vec<HeapCellValue>,
         pstr_loc: usize,
         stub_gen: impl Fn() -> MachineStub,
         a1: HeapCellValue,
-    ) -> Result<Vec<HeapCellValue>, MachineStub> {
+    ) -> Result<Option<usize>, MachineStub> {
         self.heap[0] = pstr_loc_as_cell!(pstr_loc);
         let mut heap_pstr_iter = HeapPStrIter::new(&self.heap, 0);
 
@@ -880,12 +894,41 @@ impl MachineState {
 
         let end_cell = heap_pstr_iter.heap[heap_pstr_iter.focus()];
 
-        if heap_pstr_iter.is_cyclic() || end_cell != empty_list_as_cell!() {
+        if heap_pstr_iter.is_cyclic() {
             let err = self.type_error(ValidType::List, a1);
             return Err(self.error_form(err, stub_gen()));
         }
 
-        Ok(chars)
+        // the iterator stops at the first element that is not a character.
+        read_heap_cell!(end_cell,
+            (HeapCellValueTag::Lis, l) => {
+                Ok(Some(l))
+            }
+            (HeapCellValueTag::Str, s) => {
+                let (name, arity) = cell_as_atom_cell!(self.heap[s])
+                    .get_name_and_arity();
+
+                if name == atom!(".") && arity == 2 {
+                    Ok(Some(s + 1))
+                } else if name == atom!("[]") && arity == 0 {
+                    Ok(None)
+                } else {
+                    let err = self.type_error(ValidType::List, a1);
+                    Err(self.error_form(err, stub_gen()))
+                }
+            }
+            _ => {
+                if end_cell == empty_list_as_cell!() {
+                    Ok(None)
+                } else if end_cell.is_var() {
+                    let err = self.instantiation_error();
+                    Err(self.error_form(err, stub_gen()))
+                } else {
+                    let err = self.type_error(ValidType::List, a1);
+                    Err(self.error_form(err, stub_gen()))
+                }
+            }
+        )
     }
 
     // returns true on failure.
